@@ -352,7 +352,7 @@ Fixpoint rg_pure_list (l : list expr) : bool :=
   match l with [] => true | x :: r => rg_pure x && rg_pure_list r end.
 Lemma rg_pure_no_opaque : forall e, rg_pure e = true -> no_opaque e = true.
 Proof.
-  induction e using expr_ind'; simpl; intros S; auto.
+  induction e using expr_ind'; simpl; intros S; auto; try discriminate.
   - apply andb_true_iff in S as [S1 S2]. rewrite IHe1, IHe2; auto.
   - destruct f as [|p]; [discriminate|].
     assert (S' : rg_pure_list args = true) by (destruct p; try discriminate; exact S).
